@@ -290,3 +290,9 @@ add('B51', x4('SRC/ilu_?pivotL.c', "	    case SMILU_3:\n                /* In th
 add('B52', x4('SRC/?ldperm.c', "    if ( job == 5 )\n        for (i = 0; i < n; ++i) {", "    if ( 5 == job )\n        for (i = 0; i < n; ++i) {"), [], ['C17'], note='operands of the job test swapped')
 add('B53', [('SRC/get_perm_c.c', "    COLAMD_set_defaults(knobs);", "    COLAMD_set_defaults(knobs);\n    knobs[0] = knobs[0];")], [], ['C09', 'C10'], note='a no-op on the knobs after the defaults')
 add('B54', x4('SRC/?gstrs.c', "		    rhs_work += ldb;", "		    rhs_work = rhs_work + ldb;"), [], ['C20', 'C01', 'C05'], note='column step of the walking pointer written as an assignment')
+add('B55', x4('SRC/?readrb.c', "    for (i=0; i<4; i++) {", "    for (i = 0; i < 4; ++i) {"), [], ['C16'], note='header loop of record 2 restyled')
+add('B56', [('SRC/ilu_zcopy_to_ucol.c', "for (i = 0; i < m; ++i, ++i_1) work[i]", "for (i = 0; i < m; i++, i_1++) work[i]"), ('SRC/ilu_ccopy_to_ucol.c', "for (i = 0; i < m; ++i, ++i_1) work[i]", "for (i = 0; i < m; i++, i_1++) work[i]")], [], ['C09', 'C15'], note='post-increments in the fill loop of the quick-select scratch')
+add('B57', [('SRC/scomplex.c', "    return (real + imag);", "    return (imag + real);"), ('SRC/dcomplex.c', "    return (real + imag);", "    return (imag + real);")], [], ['C04', 'C11', 'C15'], note='operands of the 1-norm magnitude swapped')
+add('B58', [('SRC/mmd.c', "\tqsize[node] = 0;\n\tmarker[node] = *maxint;", "\tmarker[node] = *maxint;\n\tqsize[node] = 0;")], [], ['C10', 'C09'], note='weight of the merged node zeroed one statement later')
+add('B59', [('SRC/sp_preorder.c', "    AC->nrow        = A->nrow;\n    AC->ncol        = A->ncol;", "    AC->ncol        = n;\n    AC->nrow        = A->nrow;")], [], ['C10', 'C01'], note='view header filled in another order, ncol through the local n')
+add('B60', x4('SRC/?gsequ.c', "\tfor (j = 0; j < A->ncol; ++j)\n\t    if ( c[j] == 0. ) {", "\tfor (j = 0; j < A->ncol; j++)\n\t    if ( c[j] == 0. ) {"), [], ['C11'], note='post-increment in the search for the first zero column factor')
